@@ -64,3 +64,8 @@ CHECKS['C12'] = dict(
     text='500 histories per quick run (60k thorough) of up to 8 calls incl. faults (UnicodeDecodeError, LookupError, raising/garbage/cyclic fetchers, missing file, raising parser, rejected edits, csscombine, profile add/remove, parser reuse); each compared in two forked children; global error mode, serializer object/preferences and profiles checked around every parse call. Exploration over histories, fault kinds enumerated.',
     note='Trusted: os.fork isolation, pickle; explicit assignments to preferences/profiles/error mode are configuration and replayed in the baseline; log output is not compared.',
 )
+CHECKS['C09'] = dict(
+    technique='stateful property-based testing (Hypothesis operation sequences) with a structural invariant checked after every step, plus exhaustive enumeration of all histories of length <= 2 over a reduced alphabet',
+    text='8k generated edit histories per quick run (200k thorough) over insertRule/add/deleteRule/cssText/encoding/namespace operations on sheets and nested @media/@page lists in both error modes, and all ~2k one- and two-step histories; the invariant (charset first, import < namespace < rules, allowed kinds in nested lists, parent links, removed objects detached, reparse keeps all rules) is evaluated after every step. Exploration (short histories exhaustive).',
+    note='Trusted: the invariant code; only DOMException counts as rejection; text assignment to an attached @namespace rule is left to C15; @variables order relative to @namespace not asserted.',
+)
